@@ -501,6 +501,12 @@ def run_real(sc, line_preempt=None, wall_s=20.0, max_steps=6000):
                 tracer = simsched.LinePreempt(s, sc["closer_line"], action=lambda: go.__setitem__(0, True),
                                               prefix=os.path.dirname(websocket.__file__))
                 tracer.install()
+            elif sc.get("preempt_line") is not None:
+                # (real runs only) the loop thread is preempted when it reaches [file, line, occurrence]: whoever else can
+                # run (the ping thread whose wait has expired) runs until it blocks, then the loop thread goes on
+                tracer = simsched.LinePreempt(s, list(sc["preempt_line"]), action=None,
+                                              prefix=os.path.dirname(websocket.__file__))
+                tracer.install()
             try:
                 outcome = s.run(body)
             finally:
